@@ -222,7 +222,7 @@ def run_case(res, case, sigs, attempt=0):
             error = exc
     tcpnet.wait_quiet(0, 3.0)
     sigs.add(net.signature())
-    if isinstance(error, exceptions.DCMTimeoutError) and attempt < 2:
+    if tcpnet.is_timeout(error) and attempt < 2:
         # a time-out on a loaded machine is not a verdict: re-run alone, without delays
         res.count('flaky-timeouts')
         return run_case(res, case, sigs, attempt + 1)
